@@ -27,6 +27,13 @@ Definition full_guard (len : N) : bool := MAX_ALLOCS <=? len.               (* l
 Definition gap_of (hi lo : N) : N := hi - lo.                               (* off - prev_end, data_end - prev_end *)
 Definition fit_guard (gap size : N) : bool := size <=? gap.                 (* gap >= size *)
 Definition next_end (off len : N) : N := off + len.                        (* prev_end = off + length *)
+Definition free_match (off offset : N) : bool := off =? offset.             (* off == offset (ShmAllocator.free) *)
+(* _ShmSink.write: self.overflowed or self._pos + n > self._limit *)
+Definition sink_guard (overflowed : bool) (pos n limit : N) : bool := overflowed || (limit <? pos + n).
+(* allocate_and_write: estimated = ipc.get_record_batch_size(batch) + _STREAM_OVERHEAD ; limit = offset + estimated *)
+Definition estimate (batch_msg : N) : N := batch_msg + STREAM_OVERHEAD.
+Definition sink_limit (offset estimated : N) : N := offset + estimated.
+Definition bytes_written (pos start : N) : N := pos - start.                (* self._pos - self._start *)
 
 (* the scan: `for i, (off, length) in enumerate(allocs)` then the gap after the last entry.
    Result: the table as written back (`allocs.insert(i, (prev_end, size))` / `append`) and the offset. *)
@@ -53,7 +60,7 @@ Fixpoint free (t : table) (offset : N) : option table :=
   match t with
   | [] => None
   | (off, len) :: r =>
-      if off =? offset then Some r
+      if free_match off offset then Some r
       else match free r offset with Some r' => Some ((off, len) :: r') | None => None end
   end.
 
@@ -109,7 +116,7 @@ Record sink := mk_sink { s_pos : N; s_limit : N; s_over : bool; s_mem : mem }.
 (* _ShmSink.write: a chunk that would end after the limit is not written and marks the sink
    overflowed; once overflowed nothing more is written *)
 Definition sink_write (s : sink) (c : chunk) : sink :=
-  if s_over s || (s_limit s <? s_pos s + c_len c) then mk_sink (s_pos s) (s_limit s) true (s_mem s)
+  if sink_guard (s_over s) (s_pos s) (c_len c) (s_limit s) then mk_sink (s_pos s) (s_limit s) true (s_mem s)
   else mk_sink (s_pos s + c_len c) (s_limit s) false (store (s_mem s) (s_pos s) c).
 
 (* ShmSegment.allocate_and_write, direct path: `estimated` is the size asked from the allocator,
@@ -120,10 +127,10 @@ Definition allocate_and_write (total : N) (t : table) (m : mem) (estimated : N) 
   match allocate total t estimated with
   | None => (t, m, None)
   | Some (t1, off) =>
-      let s := fold_left sink_write chunks (mk_sink off (off + estimated) false m) in
+      let s := fold_left sink_write chunks (mk_sink off (sink_limit off estimated) false m) in
       if s_over s then
         (match free t1 off with Some t2 => t2 | None => t1 end, s_mem s, None)
-      else (t1, s_mem s, Some (off, s_pos s - off))
+      else (t1, s_mem s, Some (off, bytes_written (s_pos s) off))
   end.
 
 (* dictionary path: the batch is serialised first, exactly `size = c_len c` bytes are allocated and copied *)
@@ -156,13 +163,24 @@ Definition run_case (x : N * list op) : list ((N * N) * table) :=
 Definition run_step (x : N * table * op) : (N * N) * table :=
   let '(total, t, o) := x in let '(t', r) := step total t o in (result_code r, t').
 
-(* long histories: results of every operation and the final table only *)
-Definition run_final (x : N * list op) : list (N * N) * table :=
-  let '(total, ops) := x in
-  let tr := trace total [] ops in
-  (map (fun p => result_code (fst p)) tr, last (map snd tr) []).
+(* long histories from a given table: results of every operation and the final table only *)
+Definition run_final (x : N * table * list op) : list (N * N) * table :=
+  let '(total, t0, ops) := x in
+  let tr := trace total t0 ops in
+  (map (fun p => result_code (fst p)) tr, last (map snd tr) t0).
 
 (* a direct write: (total, table, estimated, chunk lengths) -> (table, result) *)
 Definition run_write (x : N * table * N * list N) : table * option (N * N) :=
   let '(total, t, est, lens) := x in
   let '(t', _, r) := allocate_and_write total t (fun _ => 0) est (map zero_chunk lens) in (t', r).
+
+(* a dictionary-path write: (total, table, serialised size) -> (table, result) *)
+Definition run_copy (x : N * table * N) : table * option (N * N) :=
+  let '(total, t, size) := x in
+  let '(t', _, r) := allocate_and_copy total t (fun _ => 0) (zero_chunk size) in (t', r).
+
+(* the sink alone: (start, limit, chunk lengths) -> (cursor, overflowed) *)
+Definition run_sink (x : N * N * list N) : N * bool :=
+  let '(start, limit, lens) := x in
+  let s := fold_left sink_write (map zero_chunk lens) (mk_sink start limit false (fun _ => 0)) in
+  (s_pos s, s_over s).
